@@ -81,6 +81,68 @@ CHECKS = {
         "re-asking every query after all other calls (history), and with every reachable buffer write-protected (hard).",
         "__setitem__/attribute assignment are documented mutators; catalogue arity <= 2 (functions <= 4 sampled)",
     ),
+    "C08": (
+        "runtime postconditions on translation/rotation/scaling/reflection/affine_transform/identity/from_points/from_points_and_conics",
+        "Every call of a transformation constructor (also from Cone, RegularPolygon, __add__ and the repo tests) is compared with the matrix of its definition "
+        "(translation, counter-clockwise rotation, orthogonal det-1 axis rotation with trace 1+2cos a, Householder reflection, frame maps); additivity of "
+        "rotations and agreement of reflection with mirror() are judged on seeded parameters.",
+        "handedness of 3D rotations not judged; frames must be in exact general position",
+    ),
+    "C09": (
+        "runtime postconditions on dist/angle against Cartesian closed forms, symmetry re-invocation, isometry metamorphic relation",
+        "Every call of dist and angle (any depth, repo tests included) is compared per collection position with Cartesian references by kind (point, line, plane, "
+        "segment, polygon region, polyhedron surface, parallel subspaces); symmetry is checked by re-invoking with swapped operands; invariance under random isometries.",
+        "complex operands, both points at infinity, non-parallel subspace pairs are not judged; angles modulo pi (3D unoriented)",
+    ),
+    "C10": (
+        "runtime postconditions on perpendicular/parallel/project/mirror/is_parallel/base_point/direction/basis_matrix/general_point and the operator predicates",
+        "Every call is compared per position with the Cartesian definition (incidence, vanishing dot products, foot, 2*foot-p, orthonormal spanning rows) and, on lattice "
+        "inputs, with the exact rational predicate (dot product, circle determinant, rank).",
+        "3D line.mirror(p) with p on the line and plane-perpendicular-to-line are documented exclusions",
+    ),
+    "C11": (
+        "runtime postcondition on crossratio/harmonic_set against the exact value over Q(i); offline symmetry and invariance checks on recorded values",
+        "Every crossratio call with exactly representable operands is compared with beta1*alpha2/(beta2*alpha1) in the basis (a,b) (points, lines, planes by duality; "
+        "3x3 brackets for from_point) and the raise contract (NotCollinear/NotConcurrent <=> exact rank > 2); five symmetry identities and projective invariance on recorded values. "
+        "Open finding F29 (planes with axis at infinity).",
+        "cross ratios with coincident pairs are degenerate and not judged",
+    ),
+    "C13": (
+        "runtime postconditions on the quadric constructors against reference matrices of the loci",
+        "Every constructor call is compared with the unique conic through five points (exact null space), sym(g x h), the tangency discriminant, the confocal ellipse/hyperbola, "
+        "textbook matrices of circle/ellipse/sphere/cone/cylinder (all 26 lattice axis directions enumerated), and the read-back properties with parameters and textbook measures.",
+        "from_foci with the boundary point on a symmetry axis is not defined; from_tangent may return a degenerate pencil member",
+    ),
+    "C14": (
+        "runtime postconditions on quadric.intersect(line)/tangent/is_tangent/polar/dual with completeness against the restricted quadratic form",
+        "Every intersect call is checked for points on both operands and for completeness against the two roots of the quadratic form on the line (sqrt(eps) tolerance at double roots); "
+        "tangent/polar against M x, is_tangent against h^T adj(A) h exactly on integer data, dual against the inverse and involution for every class.",
+        "complex 3D lines, lines contained in the quadric and near-generator secants are not judged",
+    ),
+    "C15": (
+        "runtime postconditions on components/is_degenerate and Conic.intersect(Conic) with an independent Sylvester-resultant solver",
+        "components must satisfy sym(e x f) ~ matrix (unique decomposition) and equal the defining pair for from_lines/from_planes inputs over all lattice sign patterns; rank>=3 quadrics must raise; "
+        "conic-conic results are checked for membership and completeness against the resultant quartic (numpy roots) and the points known by construction.",
+        "numpy.roots trusted; identical conics / common components not judged",
+    ),
+    "C16": (
+        "runtime postconditions on Segment/Polygon/Triangle.contains against exact rational membership",
+        "Every contains call with exactly representable operands is compared with the exact closed-set membership (segments and rays, even-odd boundary-inclusive polygons, exact coplanarity in 3D); "
+        "the workload enumerates every lattice query point around every polygon of a zoo under all vertex re-orderings.",
+        "float operands are skipped (counted); both endpoints at infinity not judged",
+    ),
+    "C17": (
+        "runtime postconditions on area/centroid/volume/length/midpoint/circumcenter/regular-polygon statistics/polyhedron area and polytope ==",
+        "Measures are compared with exact shoelace/Newell/Gram references, == with the exact comparison of vertex cycles up to rotation/reversal (face sets for polyhedra); "
+        "all 2n re-orderings and swapped/moved vertices are generated; isometry invariance as metamorphic relation.",
+        "collections whose elements would need different rotations are not judged for ==",
+    ),
+    "C18": (
+        "runtime postconditions on Segment/Polygon/Polyhedron.intersect against exact rational intersection sets",
+        "Every intersect call with exactly representable single operands is compared as a set (no duplicates, point objects) with the exact reference (segment-segment/line/plane, "
+        "boundary hits in 2D, pierce point in 3D, face hits of polyhedra). Open findings F16 (collinear segments sharing an endpoint) and F30 (skew segments raise).",
+        "operands with infinitely many common points are judged only for duplicates / isolated hits",
+    ),
 }
 
 NOT_APPLICABLE = []
